@@ -245,6 +245,56 @@ def run_valid(out: Outcome, drv):
                           {"case": case, "observed": {"accepted": acc, "error": err}, "model": a["model_accepts"]})
 
 
+def run_creator_request(out, drv, rng, creator, cc, cells, wire_cells, bbox, start, exprs, before):
+    """One create_config request on a (possibly already used) creator object, judged against the Lean creator model."""
+    import pandas as pd
+
+    # expected statistics and spans come from the Lean model of the creator (Model/Creator.lean:
+    # inclusive box, NaN cells dropped, days irrelevant for a time-constant climatology)
+    end = {"2020-01-01": "2020-02-01", "2020-03-10": "2020-05-01", "2020-06-01": "2020-06-20", "2020-11-20": "2021-01-10"}[start]
+    days = (pd.Timestamp(end) - pd.Timestamp(start)).days
+    pre, = drv.run([{"kind": "creator", "cells": wire_cells, "bbox": enc(bbox), "days": days}])
+    if pre["stats"] is None or pre["stats"]["mean"][0] == 0:
+        return       # nothing inside (the real code then starts padding the box: outside the property)
+    vc = QcVariableConfig({"variable": "temp", "bbox": [float(b) for b in bbox], "start_time": start, "end_time": end,
+                           "tests": {"gross_range_test": exprs}})
+    case = {"cells": cells, "bbox": bbox, "start": start, "end": end, "exprs": exprs, "requests_before_on_same_creator": before}
+    try:
+        got = creator.create_config(vc)["temp"]["qartod"]["gross_range_test"]
+        stats_used = QcConfigCreator(cc)._get_stats(vc)
+    except Exception as e:  # noqa: BLE001
+        out.record(case, True, ["creator", "error"])
+        out.violation(f"C20 creator: create_config raised {type(e).__name__}: {e}", {"case": jsonable(case)})
+        return
+    a, = drv.run([{"kind": "creator", "cells": wire_cells, "bbox": enc(bbox), "days": days, "std": enc(F(float(stats_used["std"]))),
+                   "exprs": [[exprs["suspect_min"], exprs["suspect_max"]], [exprs["fail_min"], exprs["fail_max"]]]}])
+    fr = lambda p: F(p[0], p[1])  # noqa: E731
+    st = {k: fr(v) for k, v in a["stats"].items()}
+    one = {k: fr(v) for k, v in a["stats_one_day"].items()}
+    bad = []
+    if st != one:
+        bad.append("model: statistics depend on the number of days (C20_stats_replicate violated?)")
+    close = lambda x, y: abs(F(float(x)) - y) <= F(1, 10**9) * max(1, abs(y))  # noqa: E731
+    for k in ("min", "max", "mean"):
+        if not close(stats_used[k], st[k]):
+            bad.append(f"{k}: {stats_used[k]} vs {float(st[k])}")
+    if not close(float(stats_used["std"]) ** 2, st["var"]):
+        bad.append(f"std {stats_used['std']} vs exact variance {float(st['var'])}")
+    for name, sp in zip(("suspect_span", "fail_span"), a["spans"]):
+        if sp is None:
+            bad.append(f"{name}: the grammar model could not evaluate the expressions")
+            continue
+        for x, y in zip(got[name], sp):
+            if not close(x, fr(y)):
+                bad.append(f"{name}: got {got[name]} want {[float(fr(v)) for v in sp]}")
+    repeat = any(b["bbox"] == bbox and b["start"] == start for b in before)
+    out.record(case, True, ["creator", f"cells:{a['n_inside']}", f"creator-step:{len(before)}"] + (["creator-repeat-request"] if repeat else []))
+    if bad:
+        out.violation("C20 creator (IoosQc.creatorSpan / C20_span_days_irrelevant: spans = expressions on min/max/mean/std of the "
+                      "cells inside the inclusive bbox): " + "; ".join(bad),
+                      {"case": jsonable(case), "observed": jsonable(got), "model": a})
+
+
 def run_creator(out: Outcome, drv):
     """Synthetic climatology constant in time; spans must equal the expressions evaluated on the
     nan-statistics of the cells inside the inclusive bounding box."""
@@ -266,57 +316,26 @@ def run_creator(out: Outcome, drv):
                             coords={"time": months, "lat": [float(x) for x in lats], "lon": [float(x) for x in lons]})
             path = os.path.join(tmp, f"clim{it}.nc")
             ds.to_netcdf(path, engine="scipy")
-            i0, i1 = sorted(rng.sample(range(nlat), 2)) if nlat > 1 and rng.random() < 0.8 else (0, nlat - 1)
-            j0, j1 = sorted(rng.sample(range(nlon), 2)) if nlon > 1 and rng.random() < 0.8 else (0, nlon - 1)
-            edge = rng.choice([F(0), F(0), F(1, 4), -F(1, 4)])   # on the cell coordinate, just outside, just inside
-            bbox = [lons[j0] + edge, lats[i0] + edge, lons[j1] - edge, lats[i1] - edge]
-            # expected statistics and spans come from the Lean model of the creator (Model/Creator.lean:
-            # inclusive box, NaN cells dropped, days irrelevant for a time-constant climatology)
-            start = rng.choice(["2020-01-01", "2020-03-10", "2020-06-01", "2020-11-20"])
-            end = {"2020-01-01": "2020-02-01", "2020-03-10": "2020-05-01", "2020-06-01": "2020-06-20", "2020-11-20": "2021-01-10"}[start]
-            days = (pd.Timestamp(end) - pd.Timestamp(start)).days
-            wire_cells = [{"lat": enc(lats[i]), "lon": enc(lons[j]), "value": enc(cells[i][j])} for i in range(nlat) for j in range(nlon)]
-            exprs = {"suspect_min": "mean - 1", "suspect_max": "mean + 2 * 1", "fail_min": "min - ( max - min ) / 2", "fail_max": "max * 2"}
-            pre, = drv.run([{"kind": "creator", "cells": wire_cells, "bbox": enc(bbox), "days": days}])
-            if pre["stats"] is None or pre["stats"]["mean"][0] == 0:
-                continue       # nothing inside (the real code then starts padding the box: outside the property)
-            vc = QcVariableConfig({"variable": "temp", "bbox": [float(b) for b in bbox], "start_time": start, "end_time": end,
-                                   "tests": {"gross_range_test": exprs}})
             cc = CreatorConfig({"datasets": [{"name": "d", "file_path": path, "variables": {"temp": "temp"}}]})
-            case = {"cells": cells, "bbox": bbox, "start": start, "end": end}
-            try:
-                got = QcConfigCreator(cc).create_config(vc)["temp"]["qartod"]["gross_range_test"]
-                stats_used = QcConfigCreator(cc)._get_stats(vc)
-            except Exception as e:  # noqa: BLE001
-                out.record(case, True, ["creator", "error"])
-                out.violation(f"C20 creator: create_config raised {type(e).__name__}: {e}", {"case": jsonable(case)})
-                continue
-            a, = drv.run([{"kind": "creator", "cells": wire_cells, "bbox": enc(bbox), "days": days, "std": enc(F(float(stats_used["std"]))),
-                           "exprs": [[exprs["suspect_min"], exprs["suspect_max"]], [exprs["fail_min"], exprs["fail_max"]]]}])
-            fr = lambda p: F(p[0], p[1])  # noqa: E731
-            st = {k: fr(v) for k, v in a["stats"].items()}
-            one = {k: fr(v) for k, v in a["stats_one_day"].items()}
-            bad = []
-            if st != one:
-                bad.append("model: statistics depend on the number of days (C20_stats_replicate violated?)")
-            close = lambda x, y: abs(F(float(x)) - y) <= F(1, 10**9) * max(1, abs(y))  # noqa: E731
-            for k in ("min", "max", "mean"):
-                if not close(stats_used[k], st[k]):
-                    bad.append(f"{k}: {stats_used[k]} vs {float(st[k])}")
-            if not close(float(stats_used["std"]) ** 2, st["var"]):
-                bad.append(f"std {stats_used['std']} vs exact variance {float(st['var'])}")
-            for name, sp in zip(("suspect_span", "fail_span"), a["spans"]):
-                if sp is None:
-                    bad.append(f"{name}: the grammar model could not evaluate the expressions")
-                    continue
-                for x, y in zip(got[name], sp):
-                    if not close(x, fr(y)):
-                        bad.append(f"{name}: got {got[name]} want {[float(fr(v)) for v in sp]}")
-            out.record(case, True, ["creator", f"cells:{a['n_inside']}"])
-            if bad:
-                out.violation("C20 creator (IoosQc.creatorSpan / C20_span_days_irrelevant: spans = expressions on min/max/mean/std of the "
-                              "cells inside the inclusive bbox): " + "; ".join(bad),
-                              {"case": jsonable(case), "observed": jsonable(got), "model": a})
+            wire_cells = [{"lat": enc(lats[i]), "lon": enc(lons[j]), "value": enc(cells[i][j])} for i in range(nlat) for j in range(nlon)]
+
+            def gen_box():
+                i0, i1 = sorted(rng.sample(range(nlat), 2)) if nlat > 1 and rng.random() < 0.8 else (0, nlat - 1)
+                j0, j1 = sorted(rng.sample(range(nlon), 2)) if nlon > 1 and rng.random() < 0.8 else (0, nlon - 1)
+                edge = rng.choice([F(0), F(0), F(1, 4), -F(1, 4)])   # on the cell coordinate, just outside, just inside
+                return [lons[j0] + edge, lats[i0] + edge, lons[j1] - edge, lats[i1] - edge]
+            # one creator object serves a history of requests: a small pool of boxes / periods / expression sets, so that
+            # requests repeat (X, Y, X) and share expression texts whose values differ between boxes ("statelessly")
+            boxes = [gen_box() for _ in range(rng.randint(1, 3))]
+            starts = rng.sample(["2020-01-01", "2020-03-10", "2020-06-01", "2020-11-20"], rng.randint(1, 2))
+            expr_sets = [{"suspect_min": "mean - 1", "suspect_max": "mean + 2 * 1", "fail_min": "min - ( max - min ) / 2", "fail_max": "max * 2"},
+                         {"suspect_min": "min", "suspect_max": "max", "fail_min": "mean - 3 * std", "fail_max": "mean + 3 * std"}]
+            history = [(rng.choice(boxes), rng.choice(starts), expr_sets[0] if rng.random() < 0.7 else expr_sets[1])
+                       for _ in range(rng.randint(1, 5))]
+            creator = QcConfigCreator(cc)
+            for step, (bbox, start, exprs) in enumerate(history):
+                run_creator_request(out, drv, rng, creator, cc, cells, wire_cells, bbox, start, exprs,
+                                    [{"bbox": b, "start": st_} for b, st_, _ in history[:step]])
             os.remove(path)
     finally:
         shutil.rmtree(tmp, ignore_errors=True)
@@ -327,7 +346,8 @@ def run(out: Outcome, drv):
                 "statistics on a float-exact lattice, random redundant parentheses / spacing / number spellings), unparsable strings and "
                 "invalid identifiers; every expression evaluation is one case, judged by C20.holdsEval against exact rational arithmetic; "
                 "(b) validator: token strings over a 50-token alphabet incl. Python float() oddities; (c) creator: synthetic monthly "
-                "climatologies constant in time written as netCDF3, random inclusive bounding boxes on / beside cell coordinates. "
+                "climatologies constant in time written as netCDF3, random inclusive bounding boxes on / beside cell coordinates, "
+                "histories of 1..5 requests on ONE creator object drawn from <= 3 boxes, <= 2 periods and 2 expression sets (repeats X,Y,X). "
                 "All cases are counted non-trivial except one-token expressions")
     run_eval(out, drv)
     run_valid(out, drv)
